@@ -16,7 +16,8 @@ def rq(name, entry, defs, desc, **kw):
 
 def ref_shapes(tier):
     S = [dict(CNT=0, UNUSED=0), dict(CNT=0, UNUSED=2), dict(CNT=1, UNUSED=0, RSZ0=3), dict(CNT=1, UNUSED=1, RSZ0=0, KIND0=0x103),
-         dict(CNT=2, UNUSED=0, KIND1=0x103), dict(CNT=2, UNUSED=2, RSZ0=4, RSZ1=1, KIND0=0x101)]
+         dict(CNT=2, UNUSED=0, KIND1=0x103), dict(CNT=2, UNUSED=2, RSZ0=4, RSZ1=1, KIND0=0x101),
+         dict(CNT=2, UNUSED=0, RSZ0=64, STORED0=7, KIND0=0x103, RSZ1=3), dict(CNT=2, UNUSED=1, RSZ0=2, RSZ1=900, STORED1=5, KIND1=0x103)]
     if tier == "thorough":
         S += [dict(CNT=2, UNUSED=1, RNAME0="AA", RNAME1="ab", RSZ0=7, RSZ1=6, KIND0=0x102, KIND1=0x103), dict(CNT=1, UNUSED=2, RNAME0="longer.name", RSZ0=9),
               dict(CNT=2, UNUSED=0, RNAME0="x.1", RNAME1="x.10", RSZ0=8, RSZ1=8)]
